@@ -93,3 +93,14 @@ for tgt, (alias, lit, prop_fns, method_fn) in CFG.items():
         twins=[("never-reports", "result is None")],
         pure=[f"aas_core_codegen.{tgt}.naming:"], use_as_callee=False,
         replay=f"native.c21:replay_intra"))
+
+# collisions *between* types are checked in each generator's verify_for_types; not under contract: examples
+from pyvc.units import Native  # noqa: E402
+
+UNITS.append(Native(
+    "colliding names of two types are reported by every SDK target", ["C21"], "native.c21x:bounded", kind="examples",
+    bound="7 meta-models with two types whose names differ only in letter case / an underscore (abstract vs concrete "
+          "class with descendants, two classes, class vs enumeration, two enumerations) x the 6 SDK targets: if the "
+          "target's own naming functions map both names to one identifier, the run must fail with a collision error "
+          "(and must not raise); if they do not, no collision may be reported.  Schemas, constants and functions are "
+          "not covered", args={}, timeout_s=900))
